@@ -113,22 +113,10 @@ def num(v):
 
 def inductive_invariant(rep):
     """NothingLost as an inductive invariant of the reader machine, discharged by Apalache (spec/PcapFileInd.tla, the
-    typed form of PcapFile.tla): Init => IndInv and IndInv /\\ Next => IndInv' for every file of up to 5 records of
-    arbitrary content, damaged or not - so for call histories of every length, where TLC explores up to 6 calls."""
-    import shutil
-    import subprocess
-    d = core.workdir("apa")
-    try:
-        shutil.copy(os.path.join(tlcrun.SPEC, "PcapFileInd.tla"), d)
-        steps = [("base", ["--init=Init", "--length=0"]), ("step", ["--init=IndInit", "--length=1"])]
-        for name, extra in steps:
-            cmd = ["timeout", "900", "apalache-mc", "check", "--cinit=ConstInit", "--inv=IndInv", "--out-dir=" + os.path.join(d, "out")] + extra + ["PcapFileInd.tla"]
-            p = subprocess.run(cmd, cwd=d, stdout=subprocess.PIPE, stderr=subprocess.STDOUT, text=True)
-            if "The outcome is: NoError" not in p.stdout:
-                raise tlcrun.ToolError("Apalache did not discharge the %s case of the inductive invariant:\n%s" % (name, p.stdout[-1500:]))
-        rep.notes["inductive_invariant_NothingLost"] = "discharged by Apalache (base and step), files of up to 5 records"
-    finally:
-        shutil.rmtree(d, ignore_errors=True)
+    typed form of PcapFile.tla): for every file of up to 5 records of arbitrary content, damaged or not - so for call
+    histories of every length, where TLC explores up to 6 calls."""
+    core.apalache_inductive("PcapFileInd")
+    rep.notes["inductive_invariant_NothingLost"] = "discharged by Apalache (base and step), files of up to 5 records"
 
 
 def run(rep, tier, seed):
